@@ -213,6 +213,47 @@ def replay_pool(driver_name, cases, work, hashseeds=(0,), nproc=NCPU, timeout=36
     return events
 
 
+# ---------------------------------------------------------------------------- P3: the repository's tests, recorded
+
+def record_tests(test_paths, work, ops, stats=None, timeout=900):
+    """Run the repository's own tests under the recorder (harness/record.py) and return the recorded events whose op
+    is in `ops`, deduplicated, packaged as cases (the replay of such a case returns its stored events)."""
+    d = os.path.join(work, "p3")
+    os.makedirs(d, exist_ok=True)
+    rec = os.path.join(d, "recorded.ndjson")
+    e = dict(os.environ)
+    e.update(PYFORMLANG_VERIF="1", VERIF_RECORD_FILE=rec, PYTHONPATH=ROOT, PYTHONHASHSEED="0")
+    cmd = [PY, "-m", "pytest", "-q", "-x", "-p", "no:cacheprovider", "-p", "harness.record"] + list(test_paths)
+    t0 = time.time()
+    p = subprocess.run(cmd, cwd=d, env=e, stdout=subprocess.PIPE, stderr=subprocess.STDOUT, text=True, timeout=timeout)
+    m = re.search(r"(\d+) passed", p.stdout)
+    if p.returncode != 0 or not m:
+        # the repository's tests failing under the recorder is not ours to judge here: no recorded events
+        log("  [P3] tests did not pass under the recorder (rc=%s); no recorded events used" % p.returncode)
+        shutil.rmtree(d, ignore_errors=True)
+        return []
+    seen, cases = set(), []
+    if os.path.exists(rec):
+        with open(rec) as f:
+            for line in f:
+                ev = json.loads(line)
+                if ev.get("op") not in ops or ev.get("raised_in_test"):
+                    continue
+                k = digest(ev)
+                if k in seen:
+                    continue
+                seen.add(k)
+                ev["p3"] = True
+                cases.append(dict(recorded=[ev], family="repository-tests"))
+    if stats is not None:
+        stats["model_runs"].append(dict(name="P3:repository tests under the recorder", tests_passed=int(m.group(1)),
+                                        distinct_recorded_events=len(cases), wall_s=round(time.time() - t0, 1),
+                                        result="recorded public calls re-judged by the trace specification"))
+    log("  [P3] %s tests passed under the recorder, %d distinct recorded calls kept (%.1fs)" % (m.group(1), len(cases), time.time() - t0))
+    shutil.rmtree(d, ignore_errors=True)
+    return cases
+
+
 # ---------------------------------------------------------------------------- judging
 
 def judge(trace_module, events, work, nproc=NCPU, timeout=3600, consts="", strip=("hashseed", "case", "meta")):
